@@ -41,6 +41,9 @@ LEVEL_TEXT = ("Lean 4 theorems (all frames / partitionings / hash functions / k 
               "delivers input rows to the partition named by _partitions and ANY per-partition sort returning a sorted "
               "permutation: sort_values_globally_ordered (NaN placement included), sort_values_rows (multiset), "
               "sort_values_keys_eq_reference (key column = that of any sorted arrangement of the rows, i.e. pandas'), "
+              "sort_values_multikey_globally_ordered (several sort columns / one direction per column: routing by the first "
+              "column, per-partition sort by any total order refining it, e.g. the lexicographic one), "
+              "set_partitions_pre_monotone / _nan (valid partition number, monotone in the sort order in every mode), "
               "sort_values_tasks (all hypotheses discharged for the staged task shuffle), set_index_truthful / "
               "set_index_tasks_truthful (C41's Truthful predicate for non-decreasing divisions spanning the data), "
               "presorted_shortcut_sorted / presorted_shortcut_eq_full_path / set_index_presorted_truthful (the presorted test "
@@ -56,8 +59,8 @@ LEVEL_TEXT = ("Lean 4 theorems (all frames / partitionings / hash functions / k 
               "with target p in some order, multiset preserved), sort_values_disk (globally ordered permutation), "
               "drop_duplicates_disk_keys (distinct keys right). VALIDATED ONLY (differential tie, no theorem): that the real "
               "disk shuffle IS diskShuffle for some arrival order (every real output is diffed, rows and order, against the "
-              "model for the arrival order read off the outputs); multi-column sort keys and non-numeric keys (strings, "
-              "categoricals: API level vs pandas); the quantile divisions (any division vector is covered by the theorems, "
+              "model for the arrival order read off the outputs); pandas' per-partition behaviour for multi-column keys and "
+              "non-numeric keys (strings, categoricals: API level vs pandas); the quantile divisions (any division vector is covered by the theorems, "
               "that they balance partitions is not claimed); the optimizer rewrites around these expressions.")
 LEVEL_NOTE = ("Trusted: Lean kernel + standard axioms; pandas on ONE partition (hash_object as a function of the key cells; "
               "sort_values/sort_index returning a sorted permutation - no tie order is assumed, pandas' default sort is not "
